@@ -168,9 +168,31 @@ fn main() {
             } else { gen_command(&mut rng, case) };
             stream.extend_from_slice(&c);
         }
+        // frames around the 64 KiB buffer limit followed by more pipelined commands, cut at / next to the frame boundary
+        let near_cap = case % 16 == 3 || rng.chance(1, 40);
+        let mut forced_chunks: Option<Vec<Vec<u8>>> = None;
+        if near_cap {
+            let target: usize = 65536 + *rng.pick(&[0i64, 0, 1, -1, 2, -2, 1023, 1024, -1023, -1024, 500, -500, 3000]) as usize;
+            let mut n = target - 40;
+            // an unknown command with one huge argument: the reply is a short error line
+            let frame = loop { let f = array(&[bulk(b"BIGARG"), bulk(&vec![b'a'; n])]); if f.len() >= target { break f; } n += 1; };
+            let mut st = Vec::new();
+            if rng.chance(1, 2) { st.extend_from_slice(&array(&[bulk(b"PING"), bulk(b"first")])); }
+            let pre = st.len();
+            st.extend_from_slice(&frame);
+            st.extend_from_slice(&array(&[bulk(b"PING"), bulk(b"after")]));
+            if rng.chance(1, 2) { st.extend_from_slice(&array(&[bulk(b"PING")])); }
+            stream = st.clone();
+            stream_single = st;
+            let cut = match rng.below(6) { 0 => pre + frame.len(), 1 => 1, 2 => pre + frame.len() - 1, 3 => pre + frame.len() + 1, 4 => stream.len(), _ => rng.below(stream.len() as u64 - 1) as usize + 1 };
+            let cut = cut.min(stream.len());
+            let mut ch = vec![stream[..cut].to_vec()];
+            if cut < stream.len() { ch.push(stream[cut..].to_vec()); }
+            forced_chunks = Some(ch);
+        }
         // optionally leave the last frame incomplete
-        if rng.chance(1, 8) && stream.len() > 2 { let cut = rng.below(3) as usize + 1; stream.truncate(stream.len() - cut.min(stream.len() - 1)); stream_single.truncate(stream_single.len() - cut.min(stream_single.len() - 1)); }
-        let chunks = split(&mut rng, &stream);
+        if !near_cap && rng.chance(1, 8) && stream.len() > 2 { let cut = rng.below(3) as usize + 1; stream.truncate(stream.len() - cut.min(stream.len() - 1)); stream_single.truncate(stream_single.len() - cut.min(stream_single.len() - 1)); }
+        let chunks = match forced_chunks { Some(c) => c, None => split(&mut rng, &stream) };
         let before = snap(&metrics);
         let (reply, wf) = run_conn(port, &chunks, if chunks.len() > 400 { 0 } else { 300 });
         // let the server finish bookkeeping of this connection
